@@ -6,7 +6,7 @@ import (
 
 // Cond is a condition over integer and boolean instance variables.
 type Cond struct {
-	Op  string `json:"op"` // true false var not eq ne lt gt and or
+	Op  string `json:"op"` // true false var not eq ne lt gt and or | raw (Var holds text that cannot be evaluated to a boolean)
 	Var string `json:"var,omitempty"`
 	K   int64  `json:"k,omitempty"`
 	L   *Cond  `json:"l,omitempty"`
@@ -23,11 +23,18 @@ func Lit(b bool) *Cond {
 }
 func BoolVar(v string) *Cond { return &Cond{Op: "var", Var: v} }
 
+// Raw is expression text rendered verbatim in both languages that no engine
+// can evaluate to a boolean (undefined variable, non-boolean result, foreign
+// syntax). Only for flows whose condition BPMN says is ignored.
+func Raw(text string) *Cond { return &Cond{Op: "raw", Var: text} }
+
 // Eval is the reference evaluator (independent of both expression engines).
 // Variables are int64 or bool; a missing variable makes the condition
 // unevaluable (ok=false) - the generator never produces that on purpose.
 func (c *Cond) Eval(vars map[string]any) (val bool, ok bool) {
 	switch c.Op {
+	case "raw":
+		return false, false
 	case "true":
 		return true, true
 	case "false":
@@ -83,6 +90,8 @@ func (c *Cond) Vars(into map[string]string) {
 // Expr renders expr-lang text.
 func (c *Cond) Expr() string {
 	switch c.Op {
+	case "raw":
+		return c.Var
 	case "true", "false":
 		return c.Op
 	case "var":
@@ -110,6 +119,8 @@ func (c *Cond) Expr() string {
 // one variable, so variables are addressed as //v (valid for both shapes).
 func (c *Cond) XPath() string {
 	switch c.Op {
+	case "raw":
+		return c.Var
 	case "true":
 		return "true()"
 	case "false":
